@@ -1180,6 +1180,8 @@ def module_attr(interp, full):
         return Builtin("prange", b_range)
     if full == "numpy.nan":
         return V.NAN
+    if full == "pandas.__version__":
+        return "3.0.5"  # only its major number is inspected (>= 2 selects ISO8601 date parsing)
     if full in ("numpy.int64", "numpy.float64", "numpy.ndarray"):
         return DType({"numpy.int64": "int", "numpy.float64": "real", "numpy.ndarray": "obj"}[full], full)
     if full in ("numpy.random", "importlib.util", "rich.logging", "rich.highlighter"):
